@@ -268,6 +268,20 @@ func visitInstr(fr *frame, instr ssa.Instruction) continuation {
 			for _, r := range instr.Results {
 				res = append(res, fr.get(r))
 			}
+			if ex := fr.i.ex; ex != nil && ex.S.ReloadReturn != nil {
+				for _, k := range ex.S.ReloadReturn[instr.Pos()] {
+					switch r := instr.Results[k].(type) {
+					case *ssa.UnOp:
+						if r.Op == token.MUL {
+							res[k] = load(typeparams.MustDeref(r.X.Type()), fr.get(r.X).(*value))
+						}
+					case *ssa.MakeInterface: // `return v, f()` with an interface-typed result
+						if ld, ok := r.X.(*ssa.UnOp); ok && ld.Op == token.MUL {
+							res[k] = iface{t: r.X.Type(), v: load(typeparams.MustDeref(ld.X.Type()), fr.get(ld.X).(*value))}
+						}
+					}
+				}
+			}
 			fr.result = tuple(res)
 		}
 		fr.block = nil
